@@ -58,4 +58,9 @@ func init() {
 		Decides:    "a sufficient shape for chunk-independence of what decoders see: no decoder calls Read once and assumes a full buffer (C18-a).",
 		NotDecided: "equality of the decoded object sequences under every partition of the stream (behavioural); readers handed to third-party decoders (gzip, json).",
 	}
+	props["C19"] = &propSpec{
+		Rules:      []string{"C19-a", "C19-b", "C19-d", "C01-a", "C01-b"},
+		Decides:    "structural necessary conditions of 'every distinct key once, in key order': position-wise row comparators are two-sided (C19-a); the key is extracted in the column layout its positions were computed for (C19-b); spill errors are not dropped and the row codec does not wrap (C01-a, C01-b); every spill file has a close+remove cleanup registered that Close runs (C19-d).",
+		NotDecided: "sortedness and de-duplication of the output for all row multisets and memory limits (value-dependent).",
+	}
 }
